@@ -1241,6 +1241,26 @@ func (w *relayWorld) template(k int, ports []int) {
 			w.evTick(lo + eps())
 			w.probeBurst(ci)
 		}
+	case 9: // a permission made by CreatePermission, then the FIRST ChannelBind to that peer: the bind restarts the permission's timeout
+		alloc(ci, attrSpec{}, ports[0])
+		w.evCreatePerm(ci, w.newTid(), ok(ci), []peerSpec{p})
+		d := pt/3 + time.Duration(rng.Intn(int(pt/3)))
+		w.evTick(d)
+		w.evChannelBind(ci, w.newTid(), ok(ci), attrSpec{2, num}, &p)
+		// between "one timeout after the CreatePermission" and "one timeout after the ChannelBind"
+		if pt+eps() < ct+d && pt < at {
+			w.evTick(pt - d + eps())
+			pp := p
+			w.evSend(ci, &pp, true)
+			w.probeBurst(ci)
+			if d > 3*eps() {
+				w.evTick(d - 3*eps())
+				w.evSend(ci, &pp, true)
+				w.probeBurst(ci)
+			}
+			w.evTick(4 * eps())
+			w.evSend(ci, &pp, true)
+		}
 	case 1: // CreatePermission refresh restarts the full timeout
 		alloc(ci, attrSpec{}, ports[0])
 		w.evCreatePerm(ci, w.newTid(), ok(ci), []peerSpec{p})
@@ -1451,7 +1471,7 @@ func runRelayHistory(t *testing.T, rng *verifsim.RNG, prop string, nEvents int) 
 		w.freshNonce()
 		ports := []int{49152, 49153, 49154, 49155}
 		if rng.Chance(40) {
-			w.template(rng.Intn(9), ports)
+			w.template(rng.Intn(10), ports)
 		}
 		for i := 0; i < nEvents; i++ {
 			ci := rng.Intn(len(w.clients))
